@@ -176,14 +176,39 @@ def extras(tier, seed):
     obs = []
     # a.1 every code point the filter lets through is an XML 1.0 Char
     t0 = time.time()
-    ranges = _ranges_from_pattern(junit._invalid_re.pattern)
+    how = "ranges read from the live _invalid_re"
+    try:
+        ranges = _ranges_from_pattern(junit._invalid_re.pattern)
+        # translation validation of the range extraction: the live function agrees at every range boundary
+        for lo, hi in ranges:
+            for cp, esc in ((lo - 1, None), (lo, True), (hi, True), (hi + 1, None)):
+                if 0 <= cp <= 0x10FFFF and esc is True and junit._escape_invalid_xml_chars(chr(cp)) == chr(cp):
+                    raise AttributeError("range boundary U+%04X not escaped by the live function" % cp)
+    except (AttributeError, AssertionError):
+        # the escaping is not (or no longer) the regular expression this extractor understands: take the set of escaped code
+        # points from the live function itself, one call per code point, and hand the solver the resulting ranges
+        how = "ranges obtained by calling the live _escape_invalid_xml_chars on every code point"
+        ranges, start = [], None
+        for cp in range(0x110000):
+            ch = chr(cp)
+            try:
+                esc = junit._escape_invalid_xml_chars(ch) != ch
+            except Exception:     # noqa
+                esc = False
+            if esc and start is None:
+                start = cp
+            if not esc and start is not None:
+                ranges.append((start, cp - 1))
+                start = None
+        if start is not None:
+            ranges.append((start, 0x10FFFF))
     c = z3.Int("c")
     illegal = z3.Or([z3.And(c >= lo, c <= hi) for lo, hi in ranges])
     xmlchar = z3.Or(c == 0x9, c == 0xA, c == 0xD, z3.And(c >= 0x20, c <= 0xD7FF), z3.And(c >= 0xE000, c <= 0xFFFD), z3.And(c >= 0x10000, c <= 0x10FFFF))
     s = z3.Solver()
     s.add(c >= 0, c <= 0x10FFFF, z3.Not(illegal), z3.Not(xmlchar))
     r = s.check()
-    ob = {"name": "a.filter-passes-only-xml-chars (all code points 0..0x10FFFF, ranges read from the live _invalid_re)", "solver": "z3",
+    ob = {"name": "a.filter-passes-only-xml-chars (all code points 0..0x10FFFF, %s)" % how, "solver": "z3",
           "result": str(r), "seconds": round(time.time() - t0, 3), "ranges": len(ranges)}
     if str(r) == "unsat":
         ob["verdict"] = "holds"
